@@ -39,6 +39,20 @@ Theorem operations_terminate : forall (dbg : bool) (e : enc) (bs : list byte),
   snd (operations dbg e bs) <> Some OutOfFuel /\ snd (operations dbg e bs) <> Some Panic.
 Proof. exact operations_total. Qed.
 
+(* Encoding then decoding is the identity: for every operation that is a value of gimli's Operation type
+   (wf_op: fields within their Rust widths, piece sizes a whole number of bytes for DW_OP_piece, ...),
+   every encoding, both build modes and every continuation `rest`, parsing the canonical encoding
+   (Spec/StackSpec.v enc_op: DWARF 5 opcodes, minimal LEB128) returns the operation and leaves `rest`. *)
+Theorem decode_roundtrip : forall (dbg : bool) (e : enc) (o : operation) (rest : list byte),
+  wf_op e o -> parse_op dbg e (enc_op e o ++ rest) = Ok (o, rest).
+Proof. exact decode_roundtrip_lemma. Qed.
+
+Example decode_roundtrip_ex :   (* wf_op is satisfiable by a non-trivial operation; and the bytes it produces *)
+  wf_op (mkEnc 8 true 5 false) (OImplicitPointer 4886718345 (-3)) /\
+  enc_op (mkEnc 8 true 5 false) (OImplicitPointer 4886718345 (-3)) = [xa0; x89; x67; x45; x23; x01; x00; x00; x00; x7d] /\
+  wf_op (mkEnc 2 false 2 true) (ORegisterOffset 65535 (-9223372036854775808) 0).
+Proof. repeat split; try (vm_compute; reflexivity). intros H. now elim H. Qed.
+
 Example decode_ex_bregx :    (* DW_OP_bregx 300, -2  on a 4-byte big-endian v5 target *)
   parse_op true (mkEnc 4 false 5 true) [x92; xac; x02; x7e; xaa] = Ok (ORegisterOffset 300 (-2) 0, [xaa]).
 Proof. vm_compute. reflexivity. Qed.
@@ -150,6 +164,19 @@ Theorem iteration_bound : forall (F : fops) (dbg : bool) (c : cfg) (n : N) (fuel
   bounded_final n (snd (run F fuel dbg c program answers)).
 Proof. exact run_bound. Qed.
 
+(* Composite locations: what Evaluation::result()/value_result() can be after completion, for every program,
+   answer list, configuration, fuel and build mode.  result_shape mask ps vr :=
+     ps <> [] /\ ( (vr = None /\ (every piece has a size  \/  ps = [one piece without size and offset]))
+                 \/ (exists v a, vr = Some v /\ to_u64 v mask = Ok a /\ ps = [Address a without size]) )
+   i.e. a piece without a size is always the only piece ("if None, there must be only one piece"), and a value
+   result exists exactly when the expression left its result on the stack, in which case the single piece is the
+   implicit Address piece of that value. *)
+Theorem pieces : forall (F : fops) (dbg : bool) (c : cfg) (fuel : nat) (program : list byte) (answers : list answer)
+    (reqs : list request) (ps : list piece) (vr : option value) (a b mask : N),
+  new_mask dbg (e_asz (c_enc c)) = Ok mask ->
+  run F fuel dbg c program answers = (reqs, FComplete ps vr a b) -> result_shape mask ps vr.
+Proof. exact run_pieces. Qed.
+
 Definition ex_cfg (maxit : option N) : cfg := mkCfg (mkEnc 4 false 4 false) None maxit None None None None.
 Example iteration_ex_loop :     (* `DW_OP_skip -3` jumps to itself: the limit error, not a hang *)
   run no_fops 7 true (ex_cfg (Some 6)) [x2f; xfd; xff] [] = ([], FErr ETooManyIterations).
@@ -166,6 +193,19 @@ Proof. vm_compute. reflexivity. Qed.
 Example branch_ex_into_operand :      (* Bra/Skip may land inside an instruction: skip -2 re-decodes its own operand bytes *)
   run no_fops 9 true (ex_cfg (Some 8)) [x31; x2f; xfe; xff] [] = ([], FErr EInvalidExpression).
 Proof. vm_compute. reflexivity. Qed.
+
+Example pieces_ex_composite :   (* reg0 piece 4; piece 2 (empty); lit5 stack_value bit_piece 3,1 *)
+  run no_fops 20 true (ex_cfg None) [x50; x93; x04; x93; x02; x35; x9f; x9d; x03; x01] [] =
+    ([], FComplete [mkPiece (Some 32) None (LRegister 0); mkPiece (Some 16) None LEmpty;
+                    mkPiece (Some 3) (Some 1) (LValue (mkV TGeneric 5))] None 4 6).
+Proof. vm_compute. reflexivity. Qed.
+Example pieces_ex_unterminated :   (* a piece followed by an unterminated computation: InvalidPiece *)
+  run no_fops 20 true (ex_cfg None) [x50; x93; x04; x35] [] = ([], FErr EInvalidPiece) /\
+  run no_fops 20 true (ex_cfg None) [x50; x35] [] = ([], FErr EInvalidExpressionTerminator).
+Proof. split; vm_compute; reflexivity. Qed.
+Example iteration_counter_u32 :   (* why iteration_bound needs n < u32::MAX: `iteration += 1` at u32::MAX *)
+  chk_add 32 true 4294967295 1 = Panic /\ chk_add 32 false 4294967295 1 = Ok 0.
+Proof. split; vm_compute; reflexivity. Qed.
 
 Check decode_table : forall (dbg : bool) (e : enc) (opc : byte) (bs : list byte),
   parse_op dbg e (opc :: bs) = generic_decode dbg e opc bs.
